@@ -16,7 +16,7 @@ from common.util import Result, f2b, b2f, fl, err_kind
 from common import nets, amplib
 
 ID = 'C04'
-N = {'quick': 1300, 'thorough': 60000}
+N = {'quick': 4000, 'thorough': 120000}
 LEAN_MODULES = ['GnpyProofs.Props.C04']
 THEOREMS = [f'Gnpy.Edfa.{t}' for t in (
     'effGain_le_set', 'effGain_clamp', 'effGain_eq_set_iff', 'effGain_reduced_exact', 'callSeq_le_set', 'callSeq_clamp_last',
@@ -387,8 +387,10 @@ def run_call(case, drv):
                 res.fail(f'effective gain: {eff} applied, set gain {set_gain}, p_max-pin = {p.p_max - pin_db}: the set '
                          'gain must be reduced exactly as far as needed', call=ci)
         else:
-            if eff > min(prev_eff, p.p_max - pin_db) + 1e-9:
-                res.fail(f'effective gain: {eff} on a later call exceeds min(gain in force {prev_eff}, p_max-pin)', call=ci)
+            # later calls of the same object: only what the statement fixes whatever the gain in force is
+            if eff > set_gain + 1e-9 or pin_db + eff > p.p_max + 1e-9:
+                res.fail(f'effective gain: {eff} on a later call exceeds the set gain {set_gain} or p_max-pin '
+                         f'{p.p_max - pin_db}', call=ci)
         sat_now = eff < prev_eff - 1e-12 or (ci == 0 and eff < set_gain - 1e-12)
         saturated = saturated or sat_now
         prev_eff = eff
